@@ -2,6 +2,7 @@
 use crate::engine::{self, Check, Ctx, Report, Verdict};
 use crate::known;
 use crate::props_dynamic as pd;
+use crate::props_more as pm;
 use crate::props_static as ps;
 use serde_json::Value;
 
@@ -21,6 +22,15 @@ pub fn plans(id: &str) -> Vec<Plan> {
         ],
         "C04" => vec![Plan { check: Box::new(ps::C04), quick: 30_000, thorough: 1_500_000 }],
         "C05" => vec![Plan { check: Box::new(ps::C05Static), quick: 20_000, thorough: 1_000_000 }],
+        "C07" => vec![
+            Plan { check: Box::new(pm::C07Static), quick: 20_000, thorough: 1_000_000 },
+            Plan { check: Box::new(pd::C01 { focus: pd::Focus::Strictness, id: "C07" }), quick: 3_000, thorough: 150_000 },
+        ],
+        "C08" => vec![Plan { check: Box::new(pm::C08), quick: 8_000, thorough: 400_000 }],
+        "C12" => vec![Plan { check: Box::new(pm::C12), quick: 30_000, thorough: 1_000_000 }],
+        "C13" => vec![Plan { check: Box::new(pm::C13), quick: 40_000, thorough: 2_000_000 }],
+        "C15" => vec![Plan { check: Box::new(pm::C15), quick: 20_000, thorough: 1_000_000 }],
+        "C16" => vec![Plan { check: Box::new(pm::C16), quick: 3_000, thorough: 100_000 }],
         _ => vec![],
     }
 }
